@@ -605,8 +605,12 @@ def r7_encoding_reaches_decoder(rep, src):
     document) must have them decoded with the encoding it encoded them with: the encoding argument of the encode helper flows
     into the `encoding` keyword of the base constructor on the path that replaces the input by the encoded lines.  Otherwise a
     text file object whose encoding is not UTF-8 is read differently from the same text given as str."""
-    f = src.func('deb822:_gpg_multivalued.__init__')
-    rep.saw_func(f)
+    f0 = src.func('deb822:_gpg_multivalued.__init__')
+    rep.saw_func(f0)
+    fnode, _x = normalize.propagate_aliases(f0.node, only_simple=False, also_bool=True)      # named conditions are read through
+    from ..core import Func, set_parents
+    set_parents(fnode)
+    f = Func(f0.module, fnode, f0.qual, f0.cls)
     enc_calls = [c for c in ast.walk(f.node) if isinstance(c, ast.Call) and isinstance(c.func, ast.Attribute) and c.func.attr in ('_bytes', 'encode') and c.args]
     names = set()
     for c in enc_calls:
@@ -627,8 +631,16 @@ def r7_encoding_reaches_decoder(rep, src):
               and isinstance(st.targets[0].slice, ast.Constant) and st.targets[0].slice.value == 'encoding' and norm(st.value) == enc
               and any(k.arg is None and norm(k.value) == norm(st.targets[0].value) for k in bc.keywords)]
     # the replacement of the input by the encoded lines
-    repl = [st for st in ast.walk(f.node) if isinstance(st, ast.Assign) and len(st.targets) == 1 and isinstance(st.targets[0], ast.Subscript)
-            and ((isinstance(st.targets[0].slice, ast.Constant) and st.targets[0].slice.value in (0, 'sequence')))]
+    # (a store into args[0] / kwargs['sequence'], or a re-binding of args / kwargs to a value built from the encoded lines)
+    split_targets = set()
+    for st in ast.walk(f.node):
+        if isinstance(st, ast.Assign) and any(isinstance(c, ast.Call) and isinstance(c.func, ast.Attribute) and c.func.attr in ('split_gpg_and_payload', 'gpg_stripped_paragraph')
+                                              for c in ast.walk(st.value)):
+            for t_ in st.targets:
+                split_targets |= {n_.id for n_ in ast.walk(t_) if isinstance(n_, ast.Name)}
+    repl = [st for st in ast.walk(f.node) if isinstance(st, ast.Assign) and len(st.targets) == 1 and (
+        (isinstance(st.targets[0], ast.Subscript) and isinstance(st.targets[0].slice, ast.Constant) and st.targets[0].slice.value in (0, 'sequence'))
+        or (isinstance(st.targets[0], ast.Name) and st.targets[0].id in ('args', 'kwargs') and any(isinstance(n_, ast.Name) and n_.id in split_targets for n_ in ast.walk(st.value))))]
     if not repl:
         raise AnalysisError('%s: the replacement of the input by the encoded lines was not found' % f.site)
     what = 'encoded lines are decoded with the encoding they were encoded with'
@@ -645,6 +657,15 @@ def r7_encoding_reaches_decoder(rep, src):
         if isinstance(par, ast.If) and s_ in par.body and not par.orelse and all(isinstance(n_, (ast.Name, ast.Constant, ast.Compare, ast.Call, ast.Load, ast.Lt, ast.LtE, ast.Gt, ast.GtE))
                                                                              for n_ in ast.walk(par.test)) \
                 and {n_.id for n_ in ast.walk(par.test) if isinstance(n_, ast.Name)} <= {'len', 'args'}:
+            pass
+        else:
+            par = None
+        if par is None and isinstance(getattr(s_, '_parent', None), ast.If):
+            # the same through `not <comparison of len(args)>`
+            p2 = s_._parent
+            names2 = {n_.id for n_ in ast.walk(p2.test) if isinstance(n_, ast.Name)}
+            par = p2 if s_ in p2.body and not p2.orelse and names2 <= {'len', 'args'} else None
+        if par is not None:
             guards.add(g.node_for(par.test).id if hasattr(g, 'node_for') else None)
     ok = bool(stores) and all(not g.exists_path(g.node_for(r_).id, bn, avoid=({g.node_for(s_).id for s_ in stores} | guards) - {g.node_for(r_).id}) or
                               any(g.node_for(s_).id == g.node_for(r_).id for s_ in stores) for r_ in repl)
